@@ -22,7 +22,7 @@ tvars == <<vars, tid, l, bad, drift>>
 
 Line(t, i) == Traces[t].steps[i]
 
-OutOf(r) == [ev |-> r.ev, tgt |-> r.args.tgt, task |-> r.args.task, a |-> r.args.a, s |-> r.args.s, v |-> r.args.v,
+OutOf(r) == [ev |-> r.ev, tgt |-> r.args.tgt, task |-> r.args.task, tks |-> ToSet(r.args.tks), a |-> r.args.a, s |-> r.args.s, v |-> r.args.v,
              run |-> r.args.run, c |-> r.args.c, lvl |-> r.args.lvl, to |-> r.args.to,
              av |-> r.args.av, sv |-> r.args.sv, vv |-> r.args.vv,
              res |-> r.obs.res, seal |-> r.obs.seal, err |-> r.obs.err, nxt |-> r.obs.nxt,
@@ -49,6 +49,7 @@ StepClauses(r) ==
     \cup FailClause("C08.ExactNames.Remove", C08_ExactRemoveStep)
     \cup FailClause("C08.ExactNames.Reset", C08_ExactResetStep)
     \cup FailClause("C08.ExactNames.Trace", C08_ExactTraceStep)
+    \cup FailClause("C08.ExactNames.Worm", C08_ExactWormStep)
 
 (* is the recorded step a step of the implementation-shaped model (results included)? *)
 ModelStep(o) ==
@@ -56,7 +57,8 @@ ModelStep(o) ==
       [] o.ev = "Load"      -> Load(o.tgt, o.task, o.a, o.s, o.v, o.run)
       [] o.ev = "Remove"    -> RemoveEntry(o.run, o.tgt, o.task, o.a, o.s, o.v)
       [] o.ev = "Reset"     -> Reset(o.run, o.tgt, o.task, o.a, o.s)
-      [] o.ev = "Trace"     -> TraceReport(o.task, o.a)
+      [] o.ev = "Trace"     -> TraceReport(o.tks, o.a)
+      [] o.ev = "Worm"      -> Worm(o.run, o.tgt, o.task, o.a, o.s, o.v)
       [] o.ev = "Next"      -> NextRun
       [] o.ev = "AddTarget" -> AddTarget(o.tgt)
       [] o.ev = "Register"  -> Register(o.task, o.a, o.s, o.v)
@@ -85,8 +87,10 @@ KindOf(o) ==
               ELSE IF \E e \in near : IsPre(o.a, N(e).a) THEN "Reset-prefix-sibling-only"
               ELSE IF near # {} THEN "Reset-other-algorithm-only" ELSE "Reset-miss"
       [] o.ev = "Trace" ->
-           IF \E e \in tab["alg"] : e.n # o.a /\ IsPre(o.a, e.n) /\ NameOr(tab["task"], e.p) = o.task THEN "Trace-with-prefix-sibling"
+           IF \E e \in tab["alg"] : e.n # o.a /\ IsPre(o.a, e.n) /\ NameOr(tab["task"], e.p) \in o.tks THEN "Trace-with-prefix-sibling"
            ELSE IF o.rep # {} THEN "Trace-some" ELSE "Trace-none"
+      [] o.ev = "Worm" ->
+           IF \E e \in prime : WormMatch(NamesOf(tab, e), o) THEN "Worm-hit" ELSE "Worm-miss"
       [] o.ev = "Next" -> IF prime = {} THEN "Next-empty" ELSE "Next-some"
       [] o.ev = "Reopen" -> IF prime = {} THEN "Reopen-empty" ELSE "Reopen-some"
       [] OTHER -> o.ev
@@ -102,6 +106,15 @@ Exposure(o) ==
            IN IF \E e \in near, i \in mine : i # e.al /\ IsPre(ToString(i), ToString(e.al))
               THEN "Reset-with-id-prefix-neighbour" ELSE ""
       [] o.ev = "Next" -> IF \E e, f \in prime : Digits(e.run) # Digits(f.run) THEN "Next-across-digit-boundary" ELSE ""
+      [] o.ev = "Worm" ->
+           \* a request for run 0 plus another field, while other runs hold entries that match the other fields
+           IF o.run = 0 /\ \E e \in prime : e.run # 0 /\ WormMatch(NamesOf(tab, e), [o EXCEPT !.run = ANYRUN])
+           THEN "Worm-run-0-beside-other-runs" ELSE ""
+      [] o.ev = "Trace" ->
+           \* one call naming the same algorithm under two tasks whose reports differ
+           IF \E t, u \in o.tks : t # u /\ { [tn |-> x.tn, run |-> x.run] : x \in RefReport(tab, prime, t, o.a) }
+                                           # { [tn |-> x.tn, run |-> x.run] : x \in RefReport(tab, prime, u, o.a) }
+           THEN "Trace-same-name-under-two-tasks" ELSE ""
       [] OTHER -> ""
 
 Empty == [t \in TABLES |-> {}]
